@@ -612,6 +612,480 @@ func c14Sequence(res *hx.Result, rng *hx.Rng, cf *hx.Cases, i int, script []int)
 	}
 }
 
+// ---------- sequences with the subscriber table: raw registerEvent / unregisterEvent, client-chosen ids ----------
+
+const c14BoomUID = 100
+
+type c14Reg struct {
+	conn int
+	uid  uint64
+	sig  uint32
+	mid  uint32
+}
+
+// c14ROp: kind 0 registerEvent, 1 unregisterEvent, 2 raw get, 3 raw set, 4 generated SetDelay,
+// 5 implementor UpdateDelay, 6 implementor SignalBoom
+type c14ROp struct {
+	kind     int
+	conn     int
+	obj, sig uint32
+	uid      uint64
+	v        c14Val
+	x        uint32
+}
+
+type c14AnyEvent struct {
+	conn   int
+	action uint32
+	mid    uint32
+	data   []byte
+}
+
+// rawReg sends registerEvent (action 0) or unregisterEvent (action 1): (object, signal, user id)
+func (e *c14Env) rawReg(conn int, action uint32, obj, sig uint32, uid uint64) (uint32, bool, bool) {
+	id := e.msgID()
+	c := e.env.conns[conn]
+	payload := append(svU32(obj, sig), svU32(uint32(uid), uint32(uid>>32))...)
+	if err := c.send(net.Call, e.sid, 1, action, id, payload); err != nil {
+		return id, false, false
+	}
+	m := c.waitSeen(id, 5*time.Second)
+	return id, m != nil && m.Header.Type == net.Reply, m != nil
+}
+
+func (e *c14Env) signalBoom(x uint32) c14Res {
+	e.impl.mu.Lock()
+	h := e.impl.helper
+	e.impl.mu.Unlock()
+	if err := h.SignalBoom(int32(x)); err != nil {
+		return c14Res{kind: 1}
+	}
+	return c14Res{kind: 2}
+}
+
+// allEvents: every event frame (whatever its action) each connection received since the last call,
+// connection by connection, in arrival order
+func (e *c14Env) allEvents() ([]c14AnyEvent, bool) {
+	ok := e.env.syncAll()
+	var out []c14AnyEvent
+	for ci, c := range e.env.conns {
+		for _, m := range c.take() {
+			if m.Header.Type == net.Event {
+				out = append(out, c14AnyEvent{ci, m.Header.Action, m.Header.ID, m.Payload})
+			}
+		}
+	}
+	return out, ok
+}
+
+func c14AnyEventsTerm(evs []c14AnyEvent) string {
+	it := make([]string, len(evs))
+	for i, ev := range evs {
+		it[i] = fmt.Sprintf("(%d%%nat, %d, %d, %s)", ev.conn, ev.action, ev.mid, hx.Str(hex.EncodeToString(ev.data)))
+	}
+	return "[" + strings.Join(it, "; ") + "]"
+}
+
+var c14UIDPool = []uint64{42, 1, 2, 0, 1<<32 | 1, 1<<63 | 42}
+var c14SigPool = []uint32{c14PropUID, c14PropUID, c14PropUID, c14BoomUID, c14BoomUID, 7}
+
+func c14GenObj(rng *hx.Rng) uint32 {
+	switch rng.Intn(10) {
+	case 0:
+		return 0
+	case 1:
+		return 2
+	}
+	return 1
+}
+
+// c14GenROp: the next operation of a random sequence.  Registrations and unregistrations aim, half
+// of the time, at a (connection, user id) pair that is registered right now — for the same or for
+// another signal of the object — so that collisions, re-registrations and unregistrations that name
+// another signal are the common case, not the exception.
+func c14GenROp(rng *hx.Rng, active []c14Reg) c14ROp {
+	x := rng.Intn(100)
+	switch {
+	case x < 32:
+		o := c14ROp{kind: 0, conn: rng.Intn(3), obj: c14GenObj(rng), sig: c14SigPool[rng.Intn(len(c14SigPool))], uid: c14UIDPool[rng.Intn(len(c14UIDPool))]}
+		if len(active) > 0 && rng.Chance(0.5) {
+			a := active[rng.Intn(len(active))]
+			o.uid = a.uid
+			if rng.Chance(0.75) {
+				o.conn = a.conn
+			}
+		}
+		return o
+	case x < 44:
+		o := c14ROp{kind: 1, conn: rng.Intn(3), obj: c14GenObj(rng), sig: c14SigPool[rng.Intn(len(c14SigPool))], uid: c14UIDPool[rng.Intn(len(c14UIDPool))]}
+		if len(active) > 0 && rng.Chance(0.6) {
+			a := active[rng.Intn(len(active))]
+			o.conn, o.uid = a.conn, a.uid
+			if rng.Bool() {
+				o.sig = a.sig
+			}
+		}
+		return o
+	case x < 50:
+		return c14ROp{kind: 2, conn: rng.Intn(3)}
+	case x < 68:
+		v, _ := c14GenVal(rng)
+		if rng.Chance(0.7) {
+			v = c14Int(c14GenInt(rng))
+		}
+		return c14ROp{kind: 3, conn: rng.Intn(3), v: v}
+	case x < 76:
+		return c14ROp{kind: 4, x: c14GenInt(rng)}
+	case x < 90:
+		return c14ROp{kind: 5, x: c14GenInt(rng)}
+	}
+	return c14ROp{kind: 6, x: c14GenInt(rng)}
+}
+
+// c14RegistryScripts: small-scope enumeration of the collisions of one user id.  A first client
+// registers signal A under id 42 on connection 0; optionally unregisters (naming signal A or B);
+// id 42 is registered again for signal B on the same or on another connection; then a client write,
+// a service-side update, a rejected write and a signal emission; then the id is unregistered and
+// the property is written once more.
+func c14RegistryScripts() [][]c14ROp {
+	sigs := []uint32{c14PropUID, c14BoomUID, 7}
+	var out [][]c14ROp
+	for _, a := range sigs {
+		for _, b := range sigs {
+			for conn2 := 0; conn2 < 2; conn2++ {
+				for mid := 0; mid < 3; mid++ {
+					if mid == 2 && a == b {
+						continue
+					}
+					sc := []c14ROp{
+						{kind: 0, conn: 1, obj: 1, sig: c14PropUID, uid: 7},
+						{kind: 0, conn: 0, obj: 1, sig: a, uid: 42},
+					}
+					switch mid {
+					case 1:
+						sc = append(sc, c14ROp{kind: 1, conn: 0, obj: 1, sig: a, uid: 42})
+					case 2:
+						sc = append(sc, c14ROp{kind: 1, conn: 0, obj: 1, sig: b, uid: 42})
+					}
+					sc = append(sc,
+						c14ROp{kind: 0, conn: conn2, obj: 1, sig: b, uid: 42},
+						c14ROp{kind: 3, conn: 2, v: c14Int(33)},
+						c14ROp{kind: 5, x: 34},
+						c14ROp{kind: 3, conn: 2, v: c14Int(0xffffffff)},
+						c14ROp{kind: 6, x: 8},
+						c14ROp{kind: 1, conn: 0, obj: 1, sig: c14PropUID, uid: 42},
+						c14ROp{kind: 4, x: 35},
+						c14ROp{kind: 2, conn: 0})
+					out = append(out, sc)
+				}
+			}
+		}
+	}
+	return out
+}
+
+func c14Registry(res *hx.Result, rng *hx.Rng, cf *hx.Cases, n int) {
+	wedged := 0 // sequences given up because a call got no answer within its deadline: the family stops after three
+	for i, sc := range c14RegistryScripts() {
+		if wedged < 3 && !c14RegistrySequence(res, rng, cf, i, sc) {
+			wedged++
+		}
+	}
+	for i := 0; i < n && wedged < 3; i++ {
+		if !c14RegistrySequence(res, rng, cf, i, nil) {
+			wedged++
+		}
+	}
+}
+
+// c14Within runs a call that has no deadline of its own (generated proxy, implementor helpers) under one
+func c14Within(d time.Duration, f func() c14Res) (c14Res, bool) {
+	ch := make(chan c14Res, 1)
+	go func() { ch <- f() }()
+	select {
+	case r := <-ch:
+		return r, true
+	case <-time.After(d):
+		return c14Res{}, false
+	}
+}
+
+// c14RegistrySequence: one sequence on a fresh object; script == nil: random operations.
+// Oracle (on the implementation alone): `active` holds the registrations that were acknowledged and
+// not unregistered since (an acknowledged unregisterEvent ends what that connection registered
+// under that user id); every accepted write must give each active registration for the property
+// exactly one event, carrying the written bytes; a rejected write, a read, a registration, an
+// unregistration, a signal emission must produce no property event.
+func c14RegistrySequence(res *hx.Result, rng *hx.Rng, cf *hx.Cases, i int, script []c14ROp) bool {
+	e, err := c14NewEnv()
+	if err != nil {
+		res.Fail("harness-setup", err.Error())
+		return false
+	}
+	defer e.close()
+	var ops, descs []string
+	var active []c14Reg
+	var last *c14Val
+	untyped := false
+	collisions, rereg, invalid := 0, 0, false
+	everReg := map[string]bool{}
+	record := func(op string, r string, evs []c14AnyEvent, desc string) {
+		ops = append(ops, fmt.Sprintf("(%s, ro %s %s)", op, r, c14AnyEventsTerm(evs)))
+		descs = append(descs, desc)
+	}
+	trace := func() string { return strings.Join(descs, " ; ") }
+	synced := true // false: a connection did not answer the barrier call within its deadline
+	events := func() []c14AnyEvent {
+		evs, ok := e.allEvents()
+		if !ok {
+			synced = false
+		}
+		return evs
+	}
+	fail := func(kind, detail string) {
+		if untyped {
+			res.FailKnown(kind, detail, "store_untyped")
+		} else {
+			res.Fail(kind, detail)
+		}
+	}
+	propEvents := func(evs []c14AnyEvent) int {
+		k := 0
+		for _, ev := range evs {
+			if ev.action == c14PropUID {
+				k++
+			}
+		}
+		return k
+	}
+	silent := func(desc string, evs []c14AnyEvent) {
+		if k := propEvents(evs); k != 0 {
+			fail("event-without-accepted-write", fmt.Sprintf("%s emitted %d change events of the property: %s", desc, k, trace()))
+		}
+	}
+	checkWrite := func(desc string, r c14Res, v c14Val, evs []c14AnyEvent) {
+		if r.kind == 2 {
+			// a subscriber = what one connection registered for the property under one user id (the
+			// pinned code refuses a second registration of the pair, so this is one registration)
+			seen := map[string]bool{}
+			for _, a := range active {
+				key := fmt.Sprintf("%d/%d", a.conn, a.uid)
+				if a.sig != c14PropUID || seen[key] {
+					continue
+				}
+				seen[key] = true
+				mids := map[uint32]bool{}
+				var midl []string
+				for _, b := range active {
+					if b.sig == c14PropUID && b.conn == a.conn && b.uid == a.uid {
+						mids[b.mid] = true
+						midl = append(midl, fmt.Sprint(b.mid))
+					}
+				}
+				who := fmt.Sprintf("(conn %d, user id %d, registered by message %s: acknowledged, not unregistered)", a.conn, a.uid, strings.Join(midl, "/"))
+				k := 0
+				for _, ev := range evs {
+					if ev.conn == a.conn && mids[ev.mid] && ev.action == c14PropUID {
+						k++
+						if !bytes.Equal(ev.data, v.data) {
+							fail("event-value", fmt.Sprintf("%s was accepted but the event to the subscription %s carries %x: %s", desc, who, ev.data, trace()))
+						}
+					}
+				}
+				if k != 1 {
+					fail("event-count", fmt.Sprintf("%s was accepted and the subscription %s received %d events: %s", desc, who, k, trace()))
+				}
+			}
+			if v.sig != "i" {
+				untyped = true
+				res.FailKnown("wrongly-typed-accepted", fmt.Sprintf("%s (signature %q on an int32 property) was accepted: %s", desc, v.sig, trace()), "store_untyped")
+			}
+			vv := v
+			last = &vv
+		} else {
+			silent(desc+" (rejected)", evs)
+			g, ok := e.rawGet(0, c14Delay)
+			if ok {
+				same := (last == nil && g.kind == 1) || (last != nil && g.kind == 0 && g.val.sig == last.sig && bytes.Equal(g.val.data, last.data))
+				if !same {
+					fail("rejected-write-changed-state", fmt.Sprintf("%s was rejected; the property now reads %s: %s", desc, g, trace()))
+				}
+			}
+		}
+	}
+	nops := 14 + rng.Intn(14)
+	if script != nil {
+		nops = len(script)
+	}
+	for j := 0; j < nops; j++ {
+		if !synced {
+			res.Fail("call-unanswered", "a connection stopped answering (barrier call: no answer within 5 s) after: "+trace())
+			return false
+		}
+		var o c14ROp
+		if script != nil {
+			o = script[j]
+		} else {
+			o = c14GenROp(rng, active)
+		}
+		switch o.kind {
+		case 0:
+			for _, a := range active {
+				if a.conn == o.conn && a.uid == o.uid {
+					collisions++
+					if a.sig != o.sig {
+						res.Dist("reg:collision-across-signals")
+					} else {
+						res.Dist("reg:collision-same-signal")
+					}
+				} else if a.uid == o.uid {
+					res.Dist("reg:same-id-other-connection")
+				}
+			}
+			key := fmt.Sprintf("%d/%d", o.conn, o.uid)
+			mid, ok, answered := e.rawReg(o.conn, 0, o.obj, o.sig, o.uid)
+			evs := events()
+			r := c14Res{kind: 1}
+			if ok {
+				r.kind = 2
+			}
+			desc := fmt.Sprintf("registerEvent(conn %d, object %d, signal %d, user id %d)->%s", o.conn, o.obj, o.sig, o.uid, r)
+			if !answered {
+				res.Fail("call-unanswered", desc+": no answer within 5 s, after: "+trace())
+				return false
+			}
+			record(fmt.Sprintf("SRegister %d %d %d %d %d", o.conn, o.obj, o.sig, o.uid, mid), r.sres(), evs, desc)
+			silent(desc, evs)
+			if ok {
+				if everReg[key] {
+					rereg++
+					res.Dist("reg:re-registration-acknowledged")
+				}
+				everReg[key] = true
+				active = append(active, c14Reg{o.conn, o.uid, o.sig, mid})
+			}
+		case 1:
+			_, ok, answered := e.rawReg(o.conn, 1, o.obj, o.sig, o.uid)
+			evs := events()
+			r := c14Res{kind: 1}
+			if ok {
+				r.kind = 2
+			}
+			desc := fmt.Sprintf("unregisterEvent(conn %d, object %d, signal %d, user id %d)->%s", o.conn, o.obj, o.sig, o.uid, r)
+			if !answered {
+				res.Fail("call-unanswered", desc+": no answer within 5 s, after: "+trace())
+				return false
+			}
+			record(fmt.Sprintf("SUnregister %d %d %d %d", o.conn, o.obj, o.sig, o.uid), r.sres(), evs, desc)
+			silent(desc, evs)
+			if ok {
+				var keep []c14Reg
+				for _, a := range active {
+					if a.conn == o.conn && a.uid == o.uid {
+						if a.sig != o.sig {
+							res.Dist("reg:unregister-names-another-signal")
+						}
+						continue
+					}
+					keep = append(keep, a)
+				}
+				active = keep
+			}
+		case 2:
+			g, ok := e.rawGet(o.conn, c14Delay)
+			evs := events()
+			desc := fmt.Sprintf("get(delay)->%s", g)
+			if !ok {
+				res.Fail("call-unanswered", desc+": no answer within 5 s, after: "+trace())
+				return false
+			}
+			record("SOp (PGet "+c14Delay.term()+")", g.sres(), evs, desc)
+			if g.kind == 0 && g.val.sig != "i" {
+				fail("stored-value-not-of-declared-type", fmt.Sprintf("%s: signature %q: %s", desc, g.val.sig, trace()))
+			}
+			okv := (last == nil && g.kind == 1) || (last != nil && g.kind == 0 && g.val.sig == last.sig && bytes.Equal(g.val.data, last.data))
+			if !okv {
+				fail("read-not-last-accepted-write", fmt.Sprintf("%s but the last accepted write was %v: %s", desc, last, trace()))
+			}
+			silent(desc, evs)
+		case 3:
+			r, ok := e.rawSet(o.conn, c14Delay, o.v)
+			evs := events()
+			desc := fmt.Sprintf("set(delay, %s)->%s", o.v, r)
+			if !ok {
+				res.Fail("call-unanswered", desc+": no answer within 5 s, after: "+trace())
+				return false
+			}
+			record(fmt.Sprintf("SOp (PSet %s %s)", c14Delay.term(), o.v.term()), r.sres(), evs, desc)
+			if o.v.sig != "i" || len(o.v.data) != 4 || int32(binary.LittleEndian.Uint32(o.v.data)) < 0 {
+				invalid = true
+			}
+			checkWrite(desc, r, o.v, evs)
+		case 4:
+			r, answered := c14Within(5*time.Second, func() c14Res {
+				if err := e.bomb.SetDelay(int32(o.x)); err != nil {
+					return c14Res{kind: 1}
+				}
+				return c14Res{kind: 2}
+			})
+			if !answered {
+				res.Fail("call-unanswered", fmt.Sprintf("SetDelay(%d): no answer within 5 s, after: %s", int32(o.x), trace()))
+				return false
+			}
+			evs := events()
+			desc := fmt.Sprintf("SetDelay(%d)->%s", int32(o.x), r)
+			record(fmt.Sprintf("SOp (PSet %s %s)", c14Delay.term(), c14Int(o.x).term()), r.sres(), evs, desc)
+			checkWrite(desc, r, c14Int(o.x), evs)
+			if (int32(o.x) >= 0) != (r.kind == 2) {
+				fail("validator-not-obeyed", fmt.Sprintf("%s: the validator accepts exactly the non-negative values: %s", desc, trace()))
+			}
+			if int32(o.x) < 0 {
+				invalid = true
+			}
+		case 5:
+			r, answered := c14Within(5*time.Second, func() c14Res { return e.update(o.x) })
+			if !answered {
+				res.Fail("call-unanswered", fmt.Sprintf("UpdateDelay(%d): did not return within 5 s, after: %s", int32(o.x), trace()))
+				return false
+			}
+			evs := events()
+			desc := fmt.Sprintf("UpdateDelay(%d)->%s", int32(o.x), r)
+			record(fmt.Sprintf("SOp (PUpdate %d)", o.x), r.sres(), evs, desc)
+			checkWrite(desc, r, c14Int(o.x), evs)
+			if (int32(o.x) >= 0) != (r.kind == 2) {
+				fail("validator-not-obeyed", fmt.Sprintf("%s: the validator accepts exactly the non-negative values: %s", desc, trace()))
+			}
+			if int32(o.x) < 0 {
+				invalid = true
+			}
+		case 6:
+			r, answered := c14Within(5*time.Second, func() c14Res { return e.signalBoom(o.x) })
+			if !answered {
+				res.Fail("call-unanswered", fmt.Sprintf("SignalBoom(%d): did not return within 5 s, after: %s", int32(o.x), trace()))
+				return false
+			}
+			evs := events()
+			desc := fmt.Sprintf("SignalBoom(%d)->%s", int32(o.x), r)
+			record(fmt.Sprintf("SSignal %d", o.x), r.sres(), evs, desc)
+			silent(desc, evs)
+		}
+	}
+	res.Count(strings.Join(ops, "|"), collisions > 0 || rereg > 0 || invalid)
+	if script != nil {
+		res.Dist("reg-scripted")
+	} else {
+		res.Dist(fmt.Sprintf("reg-ops:%d0s", len(ops)/10))
+		for _, d := range descs {
+			res.Dist("reg:" + strings.SplitN(d, "(", 2)[0])
+		}
+	}
+	if script == nil && i < 2 {
+		res.Sample(trace())
+	}
+	cf.Add("rcases", fmt.Sprintf("{| rc_ops := [\n    %s] |}", strings.Join(ops, ";\n    ")), fmt.Sprintf("registry sequence %d: %s", i, trace()))
+	return true
+}
+
 // ---------- concurrent histories ----------
 
 type c14Op struct {
@@ -945,16 +1419,19 @@ func c14Probe(res *hx.Result) bool {
 func runC14(res *hx.Result, rng *hx.Rng, tier string, outdir string) {
 	res.Rule = "sequential: 12-25 operations (raw get/set with every name form and value form: int32 incl. negative and boundary, string, " +
 		"uint32, bool, int64, float, 1-tuple, int8; generated GetDelay/SetDelay; implementor UpdateDelay; up to 3 subscribers) on a real Bomb object; " +
+		"subscriber table: 14-27 operations (raw registerEvent / unregisterEvent on three connections with client-chosen user ids from a pool of six — " +
+		"half of them aimed at a (connection, id) pair registered right now, for the same or another signal/property of the object, any object id form —, " +
+		"raw and generated writes, UpdateDelay, SignalBoom, reads) plus the 48 scripted collisions of one id (signal A, optional unregister naming A or B, signal B on the same or another connection); " +
 		"concurrent: 3-4 threads (server mailbox, second mailbox through DirectClient, the implementor's goroutine, a second connection) x 2-4 operations, " +
 		"stamped by one atomic counter, half of them with a write held inside the validator while others complete; " +
-		"non-trivial = an invalid or wrongly-typed write is present (sequential) or two operations of different threads overlap (concurrent); distinct by sha256"
-	nSeq, nConc := 120, 80
+		"non-trivial = an invalid or wrongly-typed write is present (sequential), a user id collision, a re-registration or an invalid write is present (subscriber table), or two operations of different threads overlap (concurrent); distinct by sha256"
+	nSeq, nReg, nConc := 120, 60, 80
 	if tier == "thorough" {
-		nSeq, nConc = 4000, 4000
+		nSeq, nReg, nConc = 4000, 3000, 4000
 	}
 	on := c14Probe(res)
-	cf := hx.NewCases(outdir, "C14", "From QV Require Import Bytes Property Lin C14Run.", "mismatches cfg scases ccases", res,
-		"scases", "scase", "ccases", "ccase")
+	cf := hx.NewCases(outdir, "C14", "From QV Require Import Bytes Property PropertySubs Lin C14Run.", "mismatches cfg scases ccases rcases", res,
+		"scases", "scase", "ccases", "ccase", "rcases", "rcase")
 	cf.Extra = append(cf.Extra, "Local Open Scope N_scope.", fmt.Sprintf("Definition cfg := mkcfg %s.", hx.Bool(on)))
 	c14Sequential(res, rng, cf, nSeq)
 	if tier == "thorough" {
@@ -963,5 +1440,6 @@ func runC14(res *hx.Result, rng *hx.Rng, tier string, outdir string) {
 		res.Notes = append(res.Notes, "exhaustive part: every sequence of length <= 5 over {get, set 5, set 7, set -1, set String(abcd), UpdateDelay(9)} on a fresh object with one subscriber (9330 sequences)")
 	}
 	c14Concurrent(res, rng, cf, nConc)
+	c14Registry(res, rng, cf, nReg) // last: the sequences above keep the random stream they had before this family existed
 	cf.Flush()
 }
